@@ -1,9 +1,13 @@
 #!/bin/bash
-# setup.sh — offline build of the framework and warm-up of Go build caches.
+# setup.sh — offline build of the framework and warm-up of Go build caches (plain, overlay and -race builds).
 set -eu
 cd /verif
 export GOFLAGS=-mod=mod GOPROXY=off GOSUMDB=off GOTOOLCHAIN=local
 mkdir -p bin evidence replay
 go build -o bin/vcheck ./cmd/vcheck
-bin/vcheck list > /dev/null
+ov="$(mktemp -d /tmp/verif-overlay-XXXXXX)"
+trap 'rm -rf "$ov"' EXIT
+go run ./tools/mkoverlay "$ov" > bin/overlay.log
+go build -overlay "$ov/overlay.json" -o bin/vcheck-c20 ./cmd/vcheck
+go build -race -o bin/racepass ./cmd/racepass
 echo "setup ok: $(bin/vcheck list | tr '\n' ' ')"
